@@ -117,7 +117,9 @@ CLAIMS = {
              "permissions are symbolic. Decided per variant: no CBMC panic/overflow/unwrap check is reachable in any call after "
              "the fault, incl. the implicit finalisation on drop; the fault is reported by some call; the fault-free variant "
              "yields byte-for-byte the reference archive.",
-        note=TRUST + "One fault per run, writer side only (reader open/read under faults and new_append under faults are not built); the "
+        note=TRUST + "One fault per run; writer scenario plus new_append re-reading a one-entry archive with a read/seek fault at calls "
+             "22/26/30/34/38 (inside the central-directory re-read: an error, never a writer that lost the old entries); reader "
+             "open/read under faults is not built; the "
              "fault position is enumerated by variants, not a solver variable (a symbolic index merges failed and healthy writer "
              "states and was not dischargeable: > 10 GB).",
         design_ref="DESIGN.md §5 C11, §11",
@@ -178,8 +180,11 @@ CLAIMS = {
              "the local header and the central record (also with large_file, where the local length must cover the ZIP64 "
              "block), data starts where reported, reserved or truncated records - also central-only ones - are refused with "
              "an error; the central header writer stores caller extra data verbatim after the ZIP64 record.",
-        note=TRUST + "The alignment half (start_file_aligned: data offset multiple of the alignment for every alignment and preceding "
-             "offset) is NOT discharged within the caps (harness c17_aligned_small_any_offset in tier 'dev') and is outside this claim.",
+        note=TRUST + "Alignment half: only the ENUMERATED cases of c17_aligned_enumerated_4 are decided (alignment 4 at file offsets "
+             "0..=3, alignments 0, 1, 2: data offset multiple of the alignment, padding in a well-formed local-only record, length "
+             "as returned, content in place; alignment and offset concrete, data symbolic); 'every alignment 0..65535 at every "
+             "preceding offset' is NOT decided (a symbolic padding length is a symbolic-size allocation: harness "
+             "c17_aligned_small_any_offset in tier 'dev' does not finish).",
         design_ref="DESIGN.md §5 C17, §11",
     ),
     "C18": dict(
@@ -237,7 +242,7 @@ OUTSIDE = {
     "C11": "faults on the read side (open/read/append), several faults, Interrupted/WouldBlock semantics, scenarios with extra data / encryption / raw copy",
     "C12": "sequences other than the listed ones, raw copy, compression levels, unsupported methods",
     "C13": "more than one old entry / one new entry / one round in a single query, > 65535 entries, CPython-built bases",
-    "C17": "start_file_aligned (alignment half), extra data > 9 bytes, local-and-central split with non-empty local part (dev)",
+    "C17": "start_file_aligned beyond the enumerated cases (alignment 4 at offsets 0..=3; 0, 1, 2), extra data > 9 bytes, local-and-central split with non-empty local part (dev)",
     "C15": "passwords > 3 bytes in derive (the per-byte step is proven for every state, so longer passwords follow by induction), compressing methods under encryption",
     "C16": "cryptographic strength, real PBKDF2/HMAC/AES equivalence to the standards, tamper detection, MAC state machine",
     "C20": "multi-threaded use, Send/Sync, longer interleaving scripts, more than two handles",
